@@ -42,10 +42,11 @@ package bluemonday
 //@     invariant[C02] apsRulesOKE(p, elementName, aps)
 
 //@ func (*bluemonday.Policy).sanitize
+//@   sets lastErr = result
 //@   reveal[C14] wfRegex
 //@   requires wfp(p) && p.initialized && r != nil && w != nil
 //@   requires[C16] !outFailed
-//@   modifies ghost outFailed, outN, outLast, outCount, tzCur, tzPrev, tzErr, sanEl, sanRes
+//@   modifies ghost outFailed, outN, outLast, outCount, tzCur, tzPrev, tzErr, sanEl, sanRes, lastErr, lastBuf
 //@   modifies nothing
 //@   ensures[C16] outFailed ==> result != nil
 //@   ensures[C16] result == nil ==> tzErr == io.EOF
@@ -79,26 +80,29 @@ package bluemonday
 //@   ensures outN == old(outN) + 1 && outLast == s && outCount == old(outCount) + 1
 
 //@ func (*bluemonday.Policy).sanitizeWithBuff
+//@   sets lastBuf = result
 //@   requires wfp(p) && p.initialized && r != nil
 //@   requires[C16] !outFailed
-//@   modifies ghost outFailed, outN, outLast, outCount, tzCur, tzPrev, tzErr, sanEl, sanRes
+//@   modifies ghost outFailed, outN, outLast, outCount, tzCur, tzPrev, tzErr, sanEl, sanRes, lastErr, lastBuf
 //@   modifies nothing
 //@   ensures result != nil && fresh(result)
 //@   ensures[C16] tzErr != io.EOF ==> bufEmpty(result)
 //@   ensures[C16] outFailed ==> bufEmpty(result)
 
 //@ func (*bluemonday.Policy).SanitizeReader
+//@   ensures[C15] result == lastBuf
 //@   requires wfp(p) && p.initialized && r != nil
 //@   requires[C16] !outFailed
-//@   modifies ghost outFailed, outN, outLast, outCount, tzCur, tzPrev, tzErr, sanEl, sanRes
+//@   modifies ghost outFailed, outN, outLast, outCount, tzCur, tzPrev, tzErr, sanEl, sanRes, lastErr, lastBuf
 //@   modifies nothing
 //@   ensures result != nil && fresh(result)
 //@   ensures[C16] tzErr != io.EOF ==> bufEmpty(result)
 
 //@ func (*bluemonday.Policy).SanitizeReaderToWriter
+//@   ensures[C15] result == lastErr
 //@   requires wfp(p) && p.initialized && r != nil && w != nil
 //@   requires[C16] !outFailed
-//@   modifies ghost outFailed, outN, outLast, outCount, tzCur, tzPrev, tzErr, sanEl, sanRes
+//@   modifies ghost outFailed, outN, outLast, outCount, tzCur, tzPrev, tzErr, sanEl, sanRes, lastErr, lastBuf
 //@   modifies nothing
 //@   ensures[C16] outFailed ==> result != nil
 //@   ensures[C16] result == nil ==> tzErr == io.EOF
@@ -249,16 +253,18 @@ package bluemonday
 //@ func (*bluemonday.Policy).Sanitize
 //@   requires wfp(p) && p.initialized
 //@   requires[C16] !outFailed
-//@   modifies ghost outFailed, outN, outLast, outCount, tzCur, tzPrev, tzErr, sanEl, sanRes
+//@   modifies ghost outFailed, outN, outLast, outCount, tzCur, tzPrev, tzErr, sanEl, sanRes, lastErr, lastBuf
 //@   modifies nothing
 //@   ensures[C15] strings.TrimSpace(s) == "" ==> result == s
+//@   ensures[C15] strings.TrimSpace(s) != "" ==> result == bufStr(elems(lastBuf.buf), off(lastBuf.buf) + lastBuf.off, len(lastBuf.buf) - lastBuf.off)
 
 //@ func (*bluemonday.Policy).SanitizeBytes
 //@   requires wfp(p) && p.initialized
 //@   requires[C16] !outFailed
-//@   modifies ghost outFailed, outN, outLast, outCount, tzCur, tzPrev, tzErr, sanEl, sanRes
+//@   modifies ghost outFailed, outN, outLast, outCount, tzCur, tzPrev, tzErr, sanEl, sanRes, lastErr, lastBuf
 //@   modifies nothing
 //@   ensures[C15] len(bytes.TrimSpace(b)) == 0 ==> result == b
+//@   ensures[C15] len(bytes.TrimSpace(b)) != 0 ==> string(result) == bufStr(elems(lastBuf.buf), off(lastBuf.buf) + lastBuf.off, len(lastBuf.buf) - lastBuf.off)
 
 // ---------------------------------------------------------------------
 // builders (policy.go, helpers.go, policies.go)
@@ -475,28 +481,28 @@ package bluemonday
 //@   requires wfp(p)
 //@   modifies p
 //@   ensures result == p && wfp(p) && p.initialized == old(p.initialized)
-//@   ensures[C03,C17] p.requireNoFollow == require && p.requireParseableURLs
+//@   ensures p.requireNoFollow == require && p.requireParseableURLs
 
 //@ func (*bluemonday.Policy).RequireNoFollowOnFullyQualifiedLinks
 //@   reveal wfRegex, wfInner, wfURLPols
 //@   requires wfp(p)
 //@   modifies p
 //@   ensures result == p && wfp(p) && p.initialized == old(p.initialized)
-//@   ensures[C03,C17] p.requireNoFollowFullyQualifiedLinks == require && p.requireParseableURLs
+//@   ensures p.requireNoFollowFullyQualifiedLinks == require && p.requireParseableURLs
 
 //@ func (*bluemonday.Policy).RequireNoReferrerOnLinks
 //@   reveal wfRegex, wfInner, wfURLPols
 //@   requires wfp(p)
 //@   modifies p
 //@   ensures result == p && wfp(p) && p.initialized == old(p.initialized)
-//@   ensures[C03,C17] p.requireNoReferrer == require && p.requireParseableURLs
+//@   ensures p.requireNoReferrer == require && p.requireParseableURLs
 
 //@ func (*bluemonday.Policy).RequireNoReferrerOnFullyQualifiedLinks
 //@   reveal wfRegex, wfInner, wfURLPols
 //@   requires wfp(p)
 //@   modifies p
 //@   ensures result == p && wfp(p) && p.initialized == old(p.initialized)
-//@   ensures[C03,C17] p.requireNoReferrerFullyQualifiedLinks == require && p.requireParseableURLs
+//@   ensures p.requireNoReferrerFullyQualifiedLinks == require && p.requireParseableURLs
 
 //@ func (*bluemonday.Policy).RequireCrossOriginAnonymous
 //@   reveal wfRegex, wfInner, wfURLPols
@@ -510,21 +516,21 @@ package bluemonday
 //@   requires wfp(p)
 //@   modifies p
 //@   ensures result == p && wfp(p) && p.initialized == old(p.initialized)
-//@   ensures[C03,C17] p.addTargetBlankToFullyQualifiedLinks == require && p.requireParseableURLs
+//@   ensures p.addTargetBlankToFullyQualifiedLinks == require && p.requireParseableURLs
 
 //@ func (*bluemonday.Policy).RequireParseableURLs
 //@   reveal wfRegex, wfInner, wfURLPols
 //@   requires wfp(p)
 //@   modifies p
 //@   ensures result == p && wfp(p) && p.initialized == old(p.initialized)
-//@   ensures[C03,C17] p.requireParseableURLs == require
+//@   ensures p.requireParseableURLs == require
 
 //@ func (*bluemonday.Policy).AllowRelativeURLs
 //@   reveal wfRegex, wfInner, wfURLPols
 //@   requires wfp(p)
 //@   modifies p
 //@   ensures result == p && wfp(p) && p.initialized == old(p.initialized)
-//@   ensures[C03,C17] p.allowRelativeURLs == require && p.requireParseableURLs
+//@   ensures p.allowRelativeURLs == require && p.requireParseableURLs
 
 //@ func (*bluemonday.Policy).AllowURLSchemes
 //@   reveal wfRegex, wfInner, wfURLPols
@@ -681,3 +687,11 @@ package bluemonday
 //@   requires forall i int :: 0 <= i && i < len(funcs) ==> funcs[i] != nil
 //@   modifies nothing
 //@   decreases len(value)
+
+//@ func sanitise_ugc.main
+//@   at-call (*bluemonday.Policy).Sanitize(p, s)
+//@     assert[C15] p.requireNoFollow && p.requireNoFollowFullyQualifiedLinks && p.addTargetBlankToFullyQualifiedLinks && p.requireParseableURLs
+
+//@ func sanitise_html_email.main
+//@   at-call (*bluemonday.Policy).Sanitize(p, s)
+//@     assert[C15] p.requireNoFollow && p.requireNoFollowFullyQualifiedLinks && p.addTargetBlankToFullyQualifiedLinks && p.requireParseableURLs
